@@ -104,18 +104,31 @@ impl<'a> Visitor for V<'a> {
             // known finding region (CombinedKey precedence); for plain ed25519 records with a secp256k1
             // entry the secp key types legitimately see a different record
             if !crate::engine::strict() && crate::engine::is_known(crate::props::c05::KNOWN_COMBINED_ED) {
+                // this state is the recorded finding; states reached afterwards are judged again
                 self.st.known(crate::props::c05::KNOWN_COMBINED_ED);
-                self.stop = true;
                 return Ok(());
             }
         }
+        // the scheme the record is held under: for CombinedKey the secp256k1 entry whenever it is a valid key
+        // (histories may sign with a CombinedKey of the other variant)
+        let eff = if matches!(fam, FamId::CombinedSecp | FamId::CombinedEd) {
+            if secp_valid_entry(&post.pairs) {
+                Scheme::Secp
+            } else {
+                Scheme::Ed
+            }
+        } else {
+            fam.scheme()
+        };
         // a record signed through one back-end is accepted by all back-ends of its scheme
-        let targets: &[KeyType] = match fam.scheme() {
+        let targets: &[KeyType] = match eff {
             Scheme::Secp => &[KeyType::K256, KeyType::Libsecp, KeyType::Combined],
             Scheme::Ed => &[KeyType::Ed, KeyType::Combined],
         };
         for kt in targets {
-            if fam.scheme() == Scheme::Ed && *kt == KeyType::Combined && secp_valid_entry(&post.pairs) {
+            if fam == FamId::Ed && *kt == KeyType::Combined && secp_valid_entry(&post.pairs) {
+                // a plain ed25519 record that carries a valid secp256k1 entry: CombinedKey legitimately
+                // reads it as a secp256k1 record
                 continue;
             }
             self.st.evals(1);
@@ -129,7 +142,7 @@ impl<'a> Visitor for V<'a> {
             }
         }
         // scheme isolation
-        let others: &[KeyType] = match fam.scheme() {
+        let others: &[KeyType] = match eff {
             Scheme::Secp => &[KeyType::Ed],
             Scheme::Ed => &[KeyType::K256, KeyType::Libsecp],
         };
@@ -165,7 +178,7 @@ impl Property for C11 {
         }
     }
     fn enumerate(&self, quick: bool) -> Box<dyn Iterator<Item = Case> + Send + '_> {
-        let ex = (if quick { vec![FamId::Libsecp, FamId::CombinedSecp] } else { BUILTIN_FAMS.to_vec() }).into_iter().flat_map(move |f| history::exhaustive(f, if quick { 1 } else { 2 })).map(Case::Hist);
+        let ex = BUILTIN_FAMS.to_vec().into_iter().flat_map(move |f| history::exhaustive(f, if quick { 1 } else { 2 })).map(Case::Hist);
         // all 256 tag bytes on a valid key, re-signed
         let tags = (0..=255u8).flat_map(|t| {
             (0..2u64).map(move |j| {
@@ -182,7 +195,8 @@ impl Property for C11 {
                 Case::Wire(crate::cases::WireCase { bytes, label: format!("pk-tag-{t:02x}"), has_custom: false })
             })
         });
-        Box::new(ex.chain(tags).chain(crate::props::c02::C02.enumerate(quick)))
+        let cross = history::cross_sequences(quick).into_iter().map(Case::Hist);
+        Box::new(ex.chain(cross).chain(tags).chain(crate::props::c02::C02.enumerate(quick)))
     }
     fn fuzz_plans(&self) -> Vec<(&'static str, u64)> {
         vec![("wire_raw", 30000), ("wire_struct", 15000)]
@@ -191,7 +205,16 @@ impl Property for C11 {
         match c.below(5) {
             0 | 1 => {
                 let f = *c.pick(&BUILTIN_FAMS);
-                Case::Hist(history::gen_history(c, Some(f)))
+                let mut h = history::gen_history(c, Some(f));
+                if matches!(f, FamId::CombinedSecp | FamId::CombinedEd) && h.keys.len() > 1 && c.bool() {
+                    // the last key belongs to the other scheme (every pool secret is valid for both)
+                    let i = h.keys.len() - 1;
+                    if !crypto::secp_secret_valid(&h.keys[i].0) {
+                        h.keys[i] = crate::case::Secret(crate::keys::pool().secp[0]);
+                    }
+                    h.alt_keys.push(i);
+                }
+                Case::Hist(h)
             }
             2 => crate::props::c01::C01.gen(c),
             _ => crate::props::c02::C02.gen(c),
@@ -200,7 +223,7 @@ impl Property for C11 {
     fn check(&self, case: &Case, st: &mut Stats) -> Result<(), String> {
         match case {
             Case::Hist(h) => {
-                if matches!(h.fam, FamId::Var | FamId::Wide | FamId::Tiny | FamId::Mid) {
+                if matches!(h.fam, FamId::Var | FamId::Wide | FamId::Tiny | FamId::Mid | FamId::Nano | FamId::Big) {
                     return Ok(());
                 }
                 let mut v = V { st, n: 0, stop: false };
